@@ -289,23 +289,35 @@ func decoding(c *an.Ctx, rule string) {
 		return
 	}
 	site := sites[0]
-	hook := false
-	an.EachInstr(site.Parent(), func(in ssa.Instruction) {
-		if call, ok := in.(*ssa.Call); ok && an.ShortCallee(&call.Call) == "github.com/mitchellh/mapstructure.StringToTimeDurationHookFunc" {
-			// it must flow into the DecodeHook field of the config given to NewDecoder
-			hook = true
+	// the configuration object given to NewDecoder (possibly built by a helper of the package):
+	// every such object has its DecodeHook set to a value the duration hook flows into
+	hook, decodeHookSet := false, false
+	var cfgs []*ssa.Alloc
+	for _, src := range p.DeepSources(site.Common().Args[0], 3, false) {
+		if al, ok := src.(*ssa.Alloc); ok && strings.HasSuffix(an.Deref(al.Type()).String(), "mapstructure.DecoderConfig") {
+			cfgs = append(cfgs, al)
 		}
-	})
-	decodeHookSet := false
-	an.EachInstr(site.Parent(), func(in ssa.Instruction) {
-		if st, ok := in.(*ssa.Store); ok {
-			if fa, ok := st.Addr.(*ssa.FieldAddr); ok && an.TypeField(fa) == "DecoderConfig.DecodeHook" {
-				if strings.Contains(an.FieldProv(st.Val), "StringToTimeDurationHookFunc") {
-					decodeHookSet = true
+	}
+	if len(cfgs) > 0 {
+		hook, decodeHookSet = true, true
+	}
+	for _, al := range cfgs {
+		sts := an.StoresToField(al.Parent(), al, "DecodeHook")
+		if len(sts) == 0 {
+			decodeHookSet = false
+		}
+		for _, st := range sts {
+			found := strings.Contains(an.FieldProv(st.Val), "StringToTimeDurationHookFunc")
+			for _, src := range p.DeepSources(st.Val, 3, false) {
+				if strings.Contains(an.FieldProv(src), "StringToTimeDurationHookFunc") {
+					found = true
 				}
 			}
+			if !found {
+				hook = false
+			}
 		}
-	})
+	}
 	c.Check(hook && decodeHookSet, rule, an.Short(site.Parent())+":duration-hook", site.Pos(), "the decoder converts duration strings (StringToTimeDurationHookFunc in DecodeHook)", "the decoder's DecodeHook does not include StringToTimeDurationHookFunc: timeout: 10s is rejected or mis-decoded")
 	td := p.Named("internal/config", "taskDefinition")
 	okType := false
@@ -318,16 +330,17 @@ func decoding(c *an.Ctx, rule string) {
 		}
 	}
 	c.Check(okType, rule, "config.taskDefinition.Timeout:type", token.NoPos, "taskDefinition.Timeout is *time.Duration", "taskDefinition.Timeout is not *time.Duration")
-	bt := p.Func("internal/config", "", "buildTask")
-	if bt != nil {
-		good := false
-		an.EachInstr(bt, func(in ssa.Instruction) {
-			if st, ok := in.(*ssa.Store); ok {
-				if fa, ok := st.Addr.(*ssa.FieldAddr); ok && an.TypeField(fa) == "Task.Timeout" && an.FieldProv(st.Val) == "taskDefinition.Timeout" {
-					good = true
-				}
+	if tb := resolveTaskBuild(p); tb != nil {
+		bt := tb.root
+		sts := tb.storesTo("Timeout")
+		good := len(sts) > 0
+		for _, st := range sts {
+			if an.FieldProv(st.Val) != "taskDefinition.Timeout" {
+				good = false
 			}
-		})
+		}
 		c.Check(good, rule, an.Short(bt)+":Task.Timeout", bt.Pos(), "buildTask copies the definition's timeout unchanged", "buildTask does not copy taskDefinition.Timeout into Task.Timeout")
+	} else {
+		c.Und(rule, "config.buildTask", token.NoPos, "the function that builds a task.Task from a taskDefinition was not found")
 	}
 }
